@@ -1,8 +1,11 @@
 package c08
 
 import (
+	"bufio"
+	"encoding/json"
 	"fmt"
 	"os"
+	"strings"
 	"runtime"
 	"runtime/debug"
 	"runtime/pprof"
@@ -33,6 +36,8 @@ type job struct {
 	ops  []SOp
 	// node: also restart the task in-process after every point
 	taskRestarts bool
+	// node: crash the second run at every one of its boundaries as well
+	doubleCrash bool
 }
 
 // curJobs: lineage -> description of the job in progress (for harness error messages)
@@ -131,10 +136,13 @@ func doJob(j job, lineage int64) result {
 			f["hist"] = histFields(j.hist)
 			return f
 		}
-		tails := map[[2]int][]rt.M{}
-		for i, cp := range r.points {
+		depth := 1
+		if j.doubleCrash {
+			depth = 2
+		}
+		for i, tr := range crashTraces(r, r, depth, lineage) {
 			res.resets = append(res.resets, reset("crash"))
-			res.traces = append(res.traces, doRun2(r, cp, lineage, tails))
+			res.traces = append(res.traces, tr)
 			res.keys = append(res.keys, fmt.Sprintf("%s@%d", histKey(j.cfg, j.hist), i))
 		}
 		if j.taskRestarts {
@@ -147,7 +155,7 @@ func doJob(j job, lineage int64) result {
 		r.cleanup()
 	case "svc":
 		for i, tr := range doSvc(j.ops, lineage) {
-			res.resets = append(res.resets, rt.M{"kind": "svc", "anon": true, "named": true, "sco": false, "hist": opsFields(j.ops)})
+			res.resets = append(res.resets, rt.M{"kind": "svc", "hasAnon": true, "hasNamed": true, "sco": false, "hist": opsFields(j.ops)})
 			res.traces = append(res.traces, tr)
 			res.keys = append(res.keys, fmt.Sprintf("svc%v@%d", j.ops, i))
 		}
@@ -169,8 +177,10 @@ func Run(r *rt.Run) error {
 	debug.SetMemoryLimit(1 << 30)
 	t := r.NewTrace("trace000")
 	maxLen, svcLen, trLen, nRandom, nRandomSvc := 3, 3, 2, 0, 0
+	dblBoth, dblAll := 2, 0 // double crashes: history length bound for both-topic / all configurations
 	if r.Thorough() {
 		maxLen, svcLen, trLen, nRandom, nRandomSvc = 4, 4, 3, 150, 1500
+		dblBoth, dblAll = 3, 2
 	}
 	ids := []string{"a", "b"}
 	levels := []int{0, 1, 2, 3}
@@ -181,7 +191,9 @@ func Run(r *rt.Run) error {
 		job{kind: "svc", ops: []SOp{{"collect", "anon", "a", 3}, {"close", "anon", "", 0}, {"collect", "anon", "b", 1}}})
 	for _, h := range histories(maxLen, ids, levels) {
 		for _, c := range cfgs {
-			jobs = append(jobs, job{kind: "node", cfg: c, hist: h, taskRestarts: len(h) <= trLen})
+			both := c.Anon && c.Named
+			dbl := (both && len(h) <= dblBoth) || len(h) <= dblAll
+			jobs = append(jobs, job{kind: "node", cfg: c, hist: h, taskRestarts: len(h) <= trLen, doubleCrash: dbl})
 		}
 	}
 	nExh := len(jobs) - 2
@@ -224,6 +236,22 @@ func Run(r *rt.Run) error {
 			}
 		}
 		jobs = append(jobs, job{kind: "svc", ops: ops})
+	}
+	// replay mode: only the history of a saved violation (kvh c08 ... replay=<segment.ndjson>)
+	for _, a := range r.Args {
+		if strings.HasPrefix(a, "replay=") {
+			j, err := jobFromSegment(strings.TrimPrefix(a, "replay="))
+			if err != nil {
+				return err
+			}
+			jobs = []job{j}
+			nRandom = 1 // not an exhaustive run
+		}
+	}
+	if os.Getenv("C08_DOUBLE") != "" {
+		for i := range jobs {
+			jobs[i].doubleCrash = true
+		}
 	}
 	if mj := os.Getenv("C08_MAXJOBS"); mj != "" {
 		var n int
@@ -319,11 +347,13 @@ func Run(r *rt.Run) error {
 	r.Extra["svc_histories"] = nSvc
 	r.Extra["svc_max_len"] = svcLen
 	r.Extra["task_restart_max_len"] = trLen
+	r.Extra["double_crash_max_len_both_topics"] = dblBoth
+	r.Extra["double_crash_max_len_all_cfgs"] = dblAll
 	r.Extra["random_svc_histories"] = nRandomSvc
 	r.Extra["crash_restarts_node"] = restarts["crash"]
 	r.Extra["task_restarts_node"] = restarts["taskrestart"]
 	r.Extra["crash_restarts_svc"] = restarts["svc"]
-	r.Finish("node: every level history up to the length bound over 2 alert IDs x 4 levels (up to renaming of IDs) x {anonymous, named, both topics} x stateChangesOnly on/off on a real AlertNode task, restarted (fresh service + TaskMaster) on the storage as it stood before and after every topic-store commit and at every point boundary with the remaining points fed again, plus an in-process task restart after every point; svc: every history of Collect/CloseTopic/DeleteTopic on two topics up to the bound with a restart at every commit boundary; thorough adds seeded random longer histories; non-trivial = at least one topic-store transaction was committed before the crash / task restart (the restart is not on a pristine store); distinct by (configuration, history, crash point)", nRandom == 0)
+	r.Finish("node: every level history up to the length bound over 2 alert IDs x 4 levels (up to renaming of IDs) x {anonymous, named, both topics} x stateChangesOnly on/off on a real AlertNode task, restarted (fresh service + TaskMaster) on the storage as it stood before and after every topic-store commit and at every point boundary with the remaining points fed again, plus an in-process task restart after every point and (shorter histories) a second crash at every boundary of the second run; svc: every history of Collect/CloseTopic/DeleteTopic on two topics up to the bound with a restart at every commit boundary; thorough adds seeded random longer histories; non-trivial = at least one topic-store transaction was committed before the crash / task restart (the restart is not on a pristine store); distinct by (configuration, history, crash point)", nRandom == 0)
 	return nil
 }
 
@@ -334,4 +364,40 @@ func gcPercent() int {
 		return n
 	}
 	return 100
+}
+
+// jobFromSegment rebuilds the job (configuration + history) from the Reset line of a saved trace segment.
+func jobFromSegment(path string) (job, error) {
+	f, err := os.Open(path)
+	if err != nil {
+		return job{}, err
+	}
+	defer f.Close()
+	sc := bufio.NewScanner(f)
+	sc.Buffer(make([]byte, 1<<20), 1<<26)
+	if !sc.Scan() {
+		return job{}, fmt.Errorf("empty segment %s", path)
+	}
+	var reset struct {
+		Kind     string `json:"kind"`
+		HasAnon  bool   `json:"hasAnon"`
+		HasNamed bool   `json:"hasNamed"`
+		SCO      bool   `json:"sco"`
+		Hist     [][]any
+	}
+	if err := json.Unmarshal(sc.Bytes(), &reset); err != nil {
+		return job{}, fmt.Errorf("segment %s: %v", path, err)
+	}
+	if reset.Kind == "svc" {
+		j := job{kind: "svc"}
+		for _, o := range reset.Hist {
+			j.ops = append(j.ops, SOp{o[0].(string), o[1].(string), o[2].(string), int(o[3].(float64))})
+		}
+		return j, nil
+	}
+	j := job{kind: "node", cfg: Cfg{Anon: reset.HasAnon, Named: reset.HasNamed, SCO: reset.SCO}, taskRestarts: true}
+	for _, p := range reset.Hist {
+		j.hist = append(j.hist, Pt{p[0].(string), int(p[1].(float64))})
+	}
+	return j, nil
 }
